@@ -619,11 +619,9 @@ def blank_descriptions(got):
     return ({k: v[2:] for k, v in got[0].items()}, sorted(got[1]))
 
 
-F1 = 'F1-contraction: '
 F2 = 'F2-edge-residue: '
-F3 = 'F3-all-common: '
 F4 = 'F4-order-dependent: '
-KNOWN_TAGS = (F1, F2, F3, F4)
+KNOWN_TAGS = (F2, F4)       # the two known findings; (F1 contraction attribute, F3 raise after an all-common merge: fixed)
 
 
 def edge_residue(got, exp, src0, M2):
@@ -687,13 +685,8 @@ def oracle_history(case, hist, src0, steps, by_set):
         got = equiv_view(o['cbm'])
         d = diff_union(got, expected_union(src0, gids, M2))
         if o['res'] != 'ok':
-            if op[0] == 'merge' and o['res'] == 'PropertyGraphQueryException' and d is None and prev is not None and \
-                    all(n[0] in {m[0] for m in prev[0]} for n in src0[op[1]][0]):
-                fails.append(F3 + tag + 'merge raised PropertyGraphQueryException after completing the merge '
-                             '(every node of the source is already in the combined model)')
-            else:
-                fails.append(tag + 'raised %s' % o['res'])
-                break
+            fails.append(tag + 'raised %s' % o['res'])
+            break
         if op[0] == 'snap':
             snapM.append((set(M), copy.deepcopy(o['cbm'])) if o['res'] == 'ok' else None)
         if d:
@@ -720,7 +713,8 @@ def oracle_history(case, hist, src0, steps, by_set):
         if o['cbm'] is not None:
             for e in o['cbm'][1]:
                 if e[4]:
-                    fails.append(F1 + tag + "connection %s-%s carries a 'contraction' attribute" % (e[0], e[1]))
+                    fails.append(tag + "connection %s-%s carries networkx's 'contraction' attribute (a shared "
+                                 "connection must appear once, as it was)" % (e[0], e[1]))
                     break
         # same contributor set => same combined model (order independence, merge;unmerge = id, rollback)
         key = frozenset(M2)
@@ -812,6 +806,10 @@ class Histories(Stream):
         return fails
 
     def oracle(self, case, obs):
+        # bookkeeping for known_signature (see there)
+        calls = self.__dict__.setdefault('_oracle_calls', {})
+        calls[id(case)] = calls.get(id(case), 0) + 1
+        self._last_oracle_case = id(case)
         fails = self.all_failures(case, obs)
         new = [f for f in fails if not f.startswith(KNOWN_TAGS)]
         if new:
@@ -819,6 +817,14 @@ class Histories(Stream):
         return fails[0] if fails else None
 
     def known_signature(self, case, obs, why):
+        """The known findings F2 / F4 are failures of the PROPERTY that both models reproduce exactly; they explain an
+        oracle failure, never a disagreement between the Coq models and the implementation.  The generic driver asks
+        `is_known(case, oracle(case))` both for oracle failures (oracle evaluated once per case) and for model
+        disagreements (it re-evaluates the oracle of that case just before asking): the second situation is recognised
+        by the call count and answered with a text no known-finding signature matches, so that a disagreement on a case
+        that also shows F2 / F4 is still reported."""
+        if getattr(self, '_oracle_calls', {}).get(id(case), 0) >= 2 and getattr(self, '_last_oracle_case', None) == id(case):
+            return 'MODEL-DISAGREEMENT (not excused by a known finding); oracle says: %s' % (why or 'nothing')
         return why or ''
 
     def key(self, case, obs):
@@ -847,9 +853,7 @@ class Histories(Stream):
                         if any(isinstance(n[3], list) and len(n[3]) >= 2 for n in s['cbm'][0]):
                             h['steps_with_shared_node'] += 1
             fails = self.all_failures(c, o)
-            h['cases_F1_contraction'] += any(f.startswith(F1) for f in fails)
             h['cases_F2_edge_residue'] += any(f.startswith(F2) for f in fails)
-            h['cases_F3_all_common'] += any(f.startswith(F3) for f in fails)
             h['cases_F4_order_dependent'] += any(f.startswith(F4) for f in fails)
         return dict(sorted(h.items()))
 
@@ -1120,8 +1124,7 @@ class C14(Check):
         'source delegates it per delegation kind (the code raises otherwise - modelled), a connection described by two '
         'sources has the same class and properties in both',
         'unmerge restores the previous combined model only when the unmerged model brought no connection between two '
-        'elements that stay (connections carry no contributor record: known finding F2) and up to the contraction '
-        'attribute (known finding F1)',
+        'elements that stay (connections carry no contributor record: known finding F2)',
         "equivalence of combined models: adm_graph_ids compared as a set, a delegation property that is absent and one "
         "that is '' (what unmerge writes) are the same observable",
         'unmerge / snapshot of a combined model without nodes raise (loud failure, modelled); merging a source twice and '
@@ -1129,8 +1132,7 @@ class C14(Check):
     ]
 
     def refuted_witnesses(self):
-        return [('C14_unmerge_edge_refuted', witness_edge), ('C14_contraction_refuted', witness_contraction),
-                ('C14_order_refuted', witness_order)]
+        return [('C14_unmerge_edge_refuted', witness_edge), ('C14_order_refuted', witness_order)]
 
 
 def witness_edge():
@@ -1158,13 +1160,6 @@ def witness_order():
     va, vb = equiv_view(a[1]['cbm']), equiv_view(b[1]['cbm'])
     still = a[1]['res'] == 'ok' and b[1]['res'] == 'ok' and va[:2] != vb[:2]
     return still, {'case': case, 'merge_1_then_2': a[1]['cbm'], 'merge_2_then_1': b[1]['cbm']}
-
-
-def witness_contraction():
-    case = CORPUS[0]
-    _, st = run_history(case, [['merge', 0], ['merge', 1], ['unmerge', 'adm-2']])
-    still = st[2]['cbm'] is not None and any(e[4] for e in st[2]['cbm'][1])
-    return still, {'after_merge_1': st[0]['cbm'], 'after_merge_2_unmerge_2': st[2]['cbm']}
 
 
 if __name__ == '__main__':
